@@ -91,4 +91,8 @@ iprivate       = %xE000-F8FF / %xF0000-FFFFD / %x100000-10FFFD
 
 # ßee https://www.rfc-editor.org/rfc/rfc3987#section-2.2
 for rule in Rule.rules():
-    rule.first_match_alternation = True
+    # rules imported from RFC 3986 share their definition object with rfc3986.Rule; the
+    # first-match choice is this grammar's, so leave those as rfc3986 configured them.
+    imported = rfc3986.Rule.get(rule.name)
+    if imported is None or getattr(imported, "definition", None) is not rule.definition:
+        rule.first_match_alternation = True
